@@ -188,7 +188,8 @@ CHECKS["C12"] = {
     "design_ref": "DESIGN.md §2 C12",
     "jobs": [{"bin": "c12_exact", "args": ["--mode", "exact"], "deadline": {"quick": 420, "thorough": 900}},
              {"bin": "c12_exact", "args": ["--mode", "lifting"], "deadline": {"quick": 240, "thorough": 900}},
-             {"bin": "c12_exact", "args": ["--mode", "meet4"], "deadline": {"quick": 240, "thorough": 900}}],
+             {"bin": "c12_exact", "args": ["--mode", "meet4"], "deadline": {"quick": 240, "thorough": 900}},
+             {"bin": "c12_exact", "args": ["--mode", "inc5"], "deadline": {"quick": 240, "thorough": 900}}],
     "rule": ("languages over x,y,z with |k|<=2: intervals 30 constraints, zones 60, octagons 90. For intervals, sparse_dbm, split_dbm, split_oct "
              "and every closure-parameter setting (5 quick / 16 thorough): every single constraint, every ORDERED pair (added one at a time, as one "
              "system, and with the last one added to a copy) and every ordered triple (quick: default setting, third constant |k|<=1); forget of each "
@@ -199,7 +200,10 @@ CHECKS["C12"] = {
              "region lifting and reduced product and on its base domain: lifted at(v) must be within base at(v). "
              "Job 3 (meet4): difference constraints v_i - v_j <= c over FOUR variables, c in {1,5} (24 constraints): every meet of one constraint with "
              "every set of three (both orders; thorough also two with two) on sparse_dbm, split_dbm, split_oct and every closure setting; oracle = "
-             "Floyd-Warshall on the union: bottom iff negative cycle, every implied difference bound is entailed and no stronger one is."),
+             "Floyd-Warshall on the union: bottom iff negative cycle, every implied difference bound is entailed and no stronger one is. "
+             "Job 4 (inc5): constraints v_i - v_j <= 1 over FIVE variables added one at a time: every set of four (in index order and reversed) "
+             "followed by every fifth constraint, on sparse_dbm, split_dbm, split_oct and every closure setting; the closed form is observed through "
+             "at(): with v_j == 0 added to a copy, the bounds of every other variable must equal the Floyd-Warshall distances."),
     "assumptions": ["a satisfiable conjunction of <=3 unit-coefficient constraints with |k|<=2 has a solution well inside [-10,10]^3 and bounded optima are attained strictly inside (nested-box test)"],
     "level_text": "Complete enumeration of the stated constraint tuples and pairs on the real domains with an exact brute-force integer oracle.",
     "level_note": "Three variables, |k|<=2, up to 3 constraints; languages with more variables or larger constants are not covered.",
